@@ -25,3 +25,8 @@ _glue_part("C07", "C07glue",
      "commands sent from inside GetMove (none), whether and on which position the searching player is asked, the deadline put on its context (Taktician: 20 s for plies 0-1, then -limit; none when pondering; "
      "off turn without -use-opponent-time: zero move at once), Friendly's reply-time floor and search deadline, the returned move = the searcher's answer and its legality",
      ["glue: see C20 (the searching player is an oracle with the C04 contract; clocks observed through the build-time seams harness/rewrite/playtak_friendly.json, playtak_taktician.json; GetMove called sequentially on a quiescent record)"])
+
+# C07 also runs the FPA glue generator: a Friendly with an FPA rule decides what is transmitted (scripted move, resignation) from the
+# rule's notes, which must follow the server's history through undos and replacement moves (seed C07-6)
+if "C07" in PROPS and "C20glue" not in PROPS["C07"].setdefault("generators", ["C07"]):
+    PROPS["C07"]["generators"].append("C20glue")
